@@ -40,13 +40,14 @@ func (y *Yaml) IsFound() bool {
 //	     y.Get("xx").Get("yy").Int()
 //			y.Get("notPresent").IsFound()
 func (y *Yaml) Get(key any) *Yaml {
-	found := false
-	for _, n := range y.data.Content {
-		if found {
-			return &Yaml{n}
-		}
-		if n.Kind == yaml.ScalarNode && n.Value == key {
-			found = true
+	// only the keys of a mapping are looked at: a value (or a sequence entry) that happens to be spelled like the key,
+	// e.g. a profile named "violation", is not a match
+	if y.data != nil && y.data.Kind == yaml.MappingNode {
+		for i := 0; i+1 < len(y.data.Content); i += 2 {
+			k := y.data.Content[i]
+			if k.Kind == yaml.ScalarNode && k.Value == key {
+				return &Yaml{y.data.Content[i+1]}
+			}
 		}
 	}
 	return &Yaml{nil} // always returns yaml node, if key not present yaml node with nil value is returned
